@@ -286,12 +286,35 @@ def positions_quick(data, rnd):
 
 
 def alter_fn(pos, mask):
+    """mask: an int (one byte) or a hex string (several consecutive bytes)"""
+
     def f(data):
         b = bytearray(data)
-        b[pos] ^= mask
+        if isinstance(mask, str):
+            for i, m in enumerate(bytes.fromhex(mask)):
+                b[pos + i] ^= m
+        else:
+            b[pos] ^= mask
         return bytes(b)
 
     return f
+
+
+def _to_zero(data, pos, mask):
+    return bytes(a ^ b for a, b in zip(data[pos : pos + 4], bytes.fromhex(mask))) == bytes(4)
+
+
+def version_alterations(data):
+    """for every long-header packet: the Version field turned into 0 (what a Version Negotiation packet carries), into the other QUIC version and into
+    an unknown one -> [(position, hex mask)]"""
+    out = []
+    for info in packets_of(data):
+        if not info.is_long or info.version in (None, 0):
+            continue
+        v = info.version.to_bytes(4, "big")
+        for target in (0, R.V2 if info.version == R.V1 else R.V1, 0x1A2A3A4A):
+            out.append((info.start + 1, bytes(a ^ b for a, b in zip(v, target.to_bytes(4, "big"))).hex()))
+    return out
 
 
 def judge(ctx, cfg, base, run, k, pos, mask, case):
@@ -303,7 +326,7 @@ def judge(ctx, cfg, base, run, k, pos, mask, case):
     data = obs["genuine"]
     infos = packets_of(data)
     rx = "server" if obs["direction"] == "c2s" else "client"
-    where = "datagram %d (%s, %d bytes, %d packets %s), byte %d xor 0x%02x" % (k, obs["direction"], len(data), len(infos), [i.ptype for i in infos], pos, mask)
+    where = "datagram %d (%s, %d bytes, %d packets %s), byte %d xor 0x%s" % (k, obs["direction"], len(data), len(infos), [i.ptype for i in infos], pos, mask if isinstance(mask, str) else "%02x" % mask)
     if obs["raised"] is not None:
         ctx.violation("altered-packet-raised-" + obs["raised"][0], "%s: receive_datagram / next_event / datagrams_to_send raised %s on the %s" % (where, obs["raised"][1], rx), case)
         return
@@ -352,9 +375,16 @@ def tamper_task(ctx, config, thorough, part, nparts):
         if cfg["retry"] and k == 0:
             continue  # the first Initial of a Retry exchange is answered by the front door, not by a connection
         positions = range(len(data)) if thorough else positions_quick(data, rnd)
+        todo = []
         for pos in positions:
             masks = (0x01, 0x02, 0x04, 0x08, 0x10, 0x20, 0x40, 0x80, 0xFF) if thorough else ((0x01, 0x02, 0x04, 0x08, 0x10, 0x20, 0x40, 0x80) if pos in [i.start for i in packets_of(data)] else (0xFF if rnd.random() < 0.25 else 1 << rnd.randrange(8),))
-            for mask in set(masks):
+            todo.extend((pos, m) for m in sorted(set(masks)))
+        # (a long-header packet whose Version field is 0 IS a Version Negotiation packet: unauthenticated by design, and a client that has not yet
+        #  processed any packet of the server acts on it - RFC 9000 6.2.  That alteration is therefore applied only to later datagrams.)
+        first_s2c = min(kk for kk, dd, _ in base.log if dd == "s2c")
+        todo.extend((p_, m_) for p_, m_ in version_alterations(data) if not (direction == "s2c" and k == first_s2c and _to_zero(data, p_, m_)))
+        for pos, mask in todo:
+            for mask in [mask]:
                 n += 1
                 if n % nparts != part:
                     continue
